@@ -5,6 +5,14 @@
 use gneiss_mqtt::verif::{client, codec, engine, misc, text};
 use std::io::{BufRead, BufWriter, Write};
 
+mod ext_alias;
+mod ext_aws;
+mod ext_client;
+mod ext_codec;
+mod ext_engine;
+mod ext_validate;
+mod ext_ws;
+
 fn parse<T: std::str::FromStr>(t: &str) -> Result<T, String> {
     t.parse::<T>().map_err(|_| format!("bad number {}", t))
 }
@@ -108,7 +116,12 @@ fn handle(session: &mut Session, toks: &[&str]) -> Result<String, String> {
             let r3 = c.transition_to_state("PendingReconnect")?;
             Ok(format!("{} | {} | {}", r1, r2, r3))
         }
-        _ => Err(format!("unknown command {}", toks[0])),
+        _ => {
+            for h in [ext_codec::handle, ext_validate::handle, ext_alias::handle, ext_aws::handle, ext_client::handle, ext_ws::handle, ext_engine::handle] {
+                if let Some(r) = h(toks) { return r; }
+            }
+            Err(format!("unknown command {}", toks[0]))
+        }
     }
 }
 
